@@ -1,0 +1,81 @@
+//! Verification hook (only compiled with `--cfg triomphe_verif`).
+//!
+//! A `#[repr(transparent)]` wrapper around `core::sync::atomic::AtomicUsize`
+//! with the same size and alignment. Every operation performs the real atomic
+//! operation and then reports `(address, op, ordering, old, new)` to a settable
+//! observer, so that an external harness can learn the per-call atomic footprint
+//! and the address of a live allocation's counter.
+use core::sync::atomic::AtomicUsize as RealAtomicUsize;
+use core::sync::atomic::{AtomicPtr, Ordering};
+
+/// Operation codes reported to the observer.
+pub const OP_NEW: u8 = 0;
+pub const OP_LOAD: u8 = 1;
+pub const OP_FETCH_ADD: u8 = 2;
+pub const OP_FETCH_SUB: u8 = 3;
+
+/// `(address of the counter, op, ordering, value before, value after)`
+pub type Observer = fn(usize, u8, Ordering, usize, usize);
+
+static OBSERVER: AtomicPtr<()> = AtomicPtr::new(core::ptr::null_mut());
+
+/// Install (or, with `None`, remove) the observer.
+pub fn set_observer(f: Option<Observer>) {
+    let p = match f {
+        Some(f) => f as *mut (),
+        None => core::ptr::null_mut(),
+    };
+    OBSERVER.store(p, Ordering::SeqCst);
+}
+
+#[inline]
+fn report(addr: usize, op: u8, ord: Ordering, old: usize, new: usize) {
+    let p = OBSERVER.load(Ordering::SeqCst);
+    if !p.is_null() {
+        let f: Observer = unsafe { core::mem::transmute::<*mut (), Observer>(p) };
+        f(addr, op, ord, old, new);
+    }
+}
+
+#[repr(transparent)]
+pub struct AtomicUsize(RealAtomicUsize);
+
+impl AtomicUsize {
+    #[inline]
+    pub fn new(v: usize) -> Self {
+        // The address is not known yet (the value is moved into place by the
+        // caller); it is reported as 0.
+        report(0, OP_NEW, Ordering::Relaxed, v, v);
+        AtomicUsize(RealAtomicUsize::new(v))
+    }
+
+    #[inline]
+    pub fn load(&self, order: Ordering) -> usize {
+        let v = self.0.load(order);
+        report(self as *const _ as usize, OP_LOAD, order, v, v);
+        v
+    }
+
+    #[inline]
+    pub fn fetch_add(&self, val: usize, order: Ordering) -> usize {
+        let old = self.0.fetch_add(val, order);
+        report(
+            self as *const _ as usize,
+            OP_FETCH_ADD,
+            order,
+            old,
+            old.wrapping_add(val),
+        );
+        old
+    }
+
+    #[inline]
+    pub fn fetch_sub(&self, val: usize, order: Ordering) -> usize {
+        // Read the address first: after the decrement another thread may free
+        // the allocation, and `self` must not be touched again.
+        let addr = self as *const _ as usize;
+        let old = self.0.fetch_sub(val, order);
+        report(addr, OP_FETCH_SUB, order, old, old.wrapping_sub(val));
+        old
+    }
+}
